@@ -191,10 +191,8 @@ def _grid_finish(rep, out, lines, expect, meta, qmeta):
     qdis, near, judged = 0, 0, 0
     for m, (c, tt) in zip(out[len(lines):], qmeta):
         st, g = T.parse_grid(m, q=True)
-        gap = T.min_rel_gap(c)
-        # the merge decision is a float comparison at 1e-12: judge only when the margin is clear
-        tie = gap is not None and Fr(1, 10**14) < gap < Fr(1, 10**10)
-        if tie:
+        # the merge decision is a float comparison at 2e-12: judge only when the margin is clear
+        if T.threshold_tie(c):
             near += 1
             continue
         judged += 1
@@ -307,8 +305,8 @@ def check(rep: Report, tier: str, seed: int) -> None:
                 "distinct (duration, dt, times)")
     rep.assumptions = [
         "binary64 rounding is outside the theorems; probed by comparing the number of grid points of the Q model on the "
-        "exact rational inputs with the code's (cases whose closest distinct candidates are within [1e-14,1e-10] relative "
-        "of each other sit on the merge threshold 2e-12 and are counted, not judged)",
+        "exact rational inputs with the code's (cases with two neighbouring candidates between 1e-14 and 3e-10 relative "
+        "of each other sit near the merge threshold 2e-12 and are counted, not judged)",
         "pulser validates evaluation times (in [0,1], ascending, >= 1e-12 apart) before they reach the adapter",
         "the number of noise trajectories / reps is whatever HamiltonianData.noisy_samples yields (mocked here)",
     ]
